@@ -16,3 +16,9 @@ package crypto
 //@   pure
 //@   ensures err == nil ==> len(sig) == 64 && seq(sig) == ed25519_sign(seq(key), seq(data))
 //@   ensures err != nil ==> sig == nil
+
+//@ func NewSecureSessionFromSharedKey(sharedKey) (c, err)
+//@   trusted
+//@   fresh c
+//@   pure
+//@   ensures err == nil ==> c != nil && ref(c) > 0 && sskey(c) == seq(sharedKey)
